@@ -3254,7 +3254,7 @@ class XonshParser(Parser):
 
     @memoize_left_rec
     def t_primary(self) -> Any | None:
-        # t_primary: t_primary '.' NAME &t_lookahead | t_primary '[' slices ']' &t_lookahead | t_primary genexp &t_lookahead | t_primary '(' arguments? ')' &t_lookahead | atom &t_lookahead
+        # t_primary: t_primary '.' NAME &t_lookahead | t_primary '[' slices ']' &t_lookahead | t_primary genexp &t_lookahead | t_primary '(' arguments? ')' &t_lookahead | sub_procs &t_lookahead | env_atom &t_lookahead | atom &t_lookahead
         mark = self._mark()
         _lnum, _col = self._tokenizer.peek().start
         if (
@@ -3287,6 +3287,12 @@ class XonshParser(Parser):
             return ast.Call(
                 func=a, args=b[0] if b else [], keywords=b[1] if b else [], **self.span(_lnum, _col)
             )
+        self._reset(mark)
+        if (a := self.sub_procs()) and (self.positive_lookahead(self.t_lookahead)):
+            return a
+        self._reset(mark)
+        if (a := self.env_atom()) and (self.positive_lookahead(self.t_lookahead)):
+            return a
         self._reset(mark)
         if (a := self.atom()) and (self.positive_lookahead(self.t_lookahead)):
             return a
